@@ -1,6 +1,7 @@
 SPECIFICATION SpecZ
 CONSTANTS
   NKeys = 2
+  Mut = "none"
   Policy = "wc"
   Subs = {1, 2}
   VIds = {2}
